@@ -67,11 +67,11 @@ def backMesgOf (o : Opts) (m : Message) : Message := { num := m.num, fields := b
 
 /-- **`createMesg` on the cells of a message within scope** — any number of fields written under a sub-field's name, any
 number of developer fields (each read back as itself: `hdev`, see `dev_cell_rt`) -/
-theorem createMesg_scope (o : Opts) (hdeg : o.degrees = false) (ds W : List Desc) (hds : NoSubNames ds) (m : Message)
+theorem createMesg_scope (o : Opts) (ds W : List Desc) (hds : NoSubNames ds) (m : Message)
     (hm : MesgScope m)
     (hdev : ∀ dv ∈ m.devFields, readCell Arith.so ds m.num (writeDev o W dv) = .ok (.dev dv)) :
     createMesg Arith.so ds m.num (m.fields.map (writeField o m) ++ m.devFields.map (writeDev o W)) = .ok (backMesgOf o m) := by
-  have hpc := parseCells_fields o hdeg ds hds m _ _ (parseCells_devs Arith.so o ds W m.num m.devFields hdev) m.fields hm.fields
+  have hpc := parseCells_fields o ds hds m _ _ (parseCells_devs Arith.so o ds W m.num m.devFields hdev) m.fields hm.fields
   rw [filterMap_slotOf] at hpc
   -- the reversal
   have h255 : 255 ∉ refNums m.num := fun h => (refNums_facts h).1 rfl
@@ -148,7 +148,7 @@ theorem createMesg_scope (o : Opts) (hdeg : o.degrees = false) (ds W : List Desc
               rw [hasNum_iff (hbase g hg)] at hh
               have : fieldNumOf g = mp.1 := by simpa using hh
               simp only [keptB, isUnknownField, this, hq', Option.isNone_some, Bool.not_false, Bool.or_true]
-            obtain ⟨a, ha, hpa⟩ := subst_atom o hdeg hmem (hnum ▸ hlow) hpf f.value hv harr hfs.norm
+            obtain ⟨a, ha, hpa⟩ := subst_atom o hmem (hnum ▸ hlow) hpf hsubs f.value hv harr hfs.norm
             rw [ha]
             have := subfield_revert Arith.so m.num pm p s hpm hlow hpf hs fields' mp hmp (by rw [hfv]; exact hmv) a f.value hpa
             rw [this, unflag, ← hpn, hbt])
